@@ -48,3 +48,19 @@ package pclog
 //@ func (b *ProcessLogBuffer) GetLogLength
 //@   ensures result == len(b.buffer)
 //@   assigns nothing
+
+// C11: the file logger. A line is queued unless the logger was closed; Close marks the logger closed, closes
+// the queue, waits for the collector goroutine to drain it, and only then flushes the writer and closes the file.
+//@ func (l *PCLog) Info
+//@   ensures queued: !abool(l.isClosed) ==> sends() == old(sends()) + 1
+//@   ensures dropped: abool(l.isClosed) ==> sends() == old(sends())
+//@   assigns sends()
+//@ func (l *PCLog) Error
+//@   ensures queued: !abool(l.isClosed) ==> sends() == old(sends()) + 1
+//@   ensures dropped: abool(l.isClosed) ==> sends() == old(sends())
+//@   assigns sends()
+//@ func (l *PCLog) Close$1
+//@   ensures marked: abool(l.isClosed)
+//@   ensures queue-closed: closed(l.logEventChan)
+//@   ensures drained-then-flushed: joins() == old(joins()) + 1 && flushes() == old(flushes()) + 1 && flushAtJoins() == joins()
+//@   ensures flushed-then-closed: fileCloses() == old(fileCloses()) + 1 && closeAtFlushes() == flushes()
